@@ -232,5 +232,5 @@ pub fn run(g: &mut Global) {
         },
         &check,
     );
-    g.random("random", g.tier.pick(16000, 150000), &strategy, &check);
+    g.random("random", g.tier.pick(50000, 300000), &strategy, &check);
 }
